@@ -156,6 +156,10 @@ fn targets(rng: &mut Rng, size: u64, aligned: bool) -> u64 {
 }
 
 fn window(rng: &mut Rng, st: &mut St, target: u64, size: u64) {
+    // windows never wrap around the top of the address space (the harness's own memory builder adds offsets)
+    if target < 8 || target.checked_add(size.max(8) + 16).is_none() {
+        return;
+    }
     match rng.below(24) {
         0 => {} // unmapped
         1 => {
